@@ -1,5 +1,6 @@
 import BoolFn.Proofs.Oracle2
 import BoolFn.Props.C04
+import BoolFn.Props.C07
 import BoolFn.Proofs.Support
 import BoolFn.Proofs.IndexOf
 import BoolFn.Proofs.Quant
@@ -183,6 +184,25 @@ theorem same_function_same_essentials (e e' : Expr α) (h : ∀ ρ, e.den ρ = e
     u ∈ e.essentialInputs ↔ u ∈ e'.essentialInputs := by
   rw [expr_essential_iff, expr_essential_iff]
   simp only [Essential, h]
+
+
+/-- essential inputs and the Boolean derivative tell the same story: `u` is reported essential exactly
+    when the derivative by `u` is satisfiable -/
+theorem expr_essential_iff_derivative (e : Expr α) (u : α) :
+    u ∈ e.essentialInputs ↔ ∃ ρ, (e.derivative [u]).den ρ = true := by
+  rw [expr_essential_iff]
+  simp only [Essential, C07.single_flip_expr]
+  constructor
+  · intro ⟨ρ, h⟩; exact ⟨ρ, by simpa using h⟩
+  · intro ⟨ρ, h⟩; exact ⟨ρ, by simpa using h⟩
+
+/-- negation does not change which inputs are essential -/
+theorem expr_essential_not (e : Expr α) (u : α) :
+    Essential (fun ρ => (Expr.not e).den ρ) u ↔ Essential (fun ρ => e.den ρ) u := by
+  simp only [Essential, Expr.den]
+  constructor
+  · intro ⟨ρ, h⟩; exact ⟨ρ, fun h' => h (by rw [h'])⟩
+  · intro ⟨ρ, h⟩; exact ⟨ρ, fun h' => h (by simpa using h')⟩
 
 /-- non-vacuity: `(a & b) | (c & !c)` declares c but depends on a and b only -/
 example : (Expr.or [.and [.lit 1, .lit 2], .and [.lit 3, .not (.lit 3)]] : Expr Nat).essentialInputs = [1, 2] := by decide
